@@ -9,6 +9,7 @@ CONSTANTS
   MaxBatch = 2
   MaxFail = 1
   MaxStops = 2
+  MaxCancel = 0
   Inflights = {1, 2}
   Hws = {99}
   Caps = {99}
@@ -17,6 +18,6 @@ CONSTANTS
   Canonical = TRUE
   StrictOrder = FALSE
 VIEW View
-INVARIANTS TypeOK C29_InflightBound C29_Aligned C29_NoSecondMessage C29_RetryOriginal C29_ChangedPayloadNeverSucceeds C29_Order C41_DoneMeansDrained C41_NothingDiscarded
+INVARIANTS TypeOK C29_InflightBound C29_CanceledOnlyIfCancelled C29_Aligned C29_NoSecondMessage C29_RetryOriginal C29_ChangedPayloadNeverSucceeds C29_Order C41_DoneMeansDrained C41_NothingDiscarded
 PROPERTIES C29_ExactlyOne C41_NoAdmitAfterStop C41_TimeoutKeepsWork
 CHECK_DEADLOCK FALSE
